@@ -57,7 +57,7 @@ PROPS = {
     },
     "C12": {
         "level": "proof",
-        "units": ["challenge", "transcripts", "za_merchant", "cor_merchant"],
+        "units": ["challenge", "transcripts", "za_merchant", "cor_merchant", "za_context"],
         "assumptions": [
             PER_INST,
             "SHA3-256 collision resistance (to go from 'transcript changes' to 'challenge changes'); fixed-width encodings to_bytes of scalars and points are injective (documented contract of bls12_381)",
@@ -139,7 +139,7 @@ PROPS = {
     },
     "C06": {
         "level": "proof",
-        "units": ["za_merchant", "za_states", "challenge", "transcripts", "cor_merchant", "lemmas_ps", "lemmas_schnorr"],
+        "units": ["za_merchant", "za_states", "challenge", "transcripts", "cor_merchant", "lemmas_ps", "lemmas_schnorr", "za_context"],
         "assumptions": [
             "SHA3 collision resistance (transcript differs ==> challenge differs); challenge != 0; commitments of honest proofs are not the identity; cross-session blinding-factor coincidences are negligible",
             "the revocation-commitment parameters are not hashed into the pay challenge; replacing them changes the operand of the revocation-lock sub-proof equation (a linear coincidence otherwise)",
@@ -161,7 +161,7 @@ PROPS = {
     "C15": {
         "level": "proof",
         "units": ["za_nonce_revlock", "validators"],
-        "kani": ["balance_decode_invariant", "g1_codec_validates", "g2_codec_validates", "scalar_codec_validates"],
+        "kani": ["balance_decode_invariant", "g1_codec_validates", "g2_codec_validates", "scalar_codec_validates", "channel_id_from_str_exact"],
         "scans": ["serde_routing", "nonce_sites", "revocation_pair_sites"],
         "assumptions": [
             "bls12_381 decoders accept canonical, on-curve, in-subgroup encodings only (documented contract of from_compressed/from_bytes)",
@@ -171,7 +171,7 @@ PROPS = {
     },
     "C16": {
         "level": "proof",
-        "kani": ["array_visitor_total_n1", "array_visitor_total_n5", "boxed_array_visitor_total_n1", "vec_visitor_bounded_allocation", "g1_codec_short_input"],
+        "kani": ["array_visitor_total_n1", "array_visitor_total_n5", "boxed_array_visitor_total_n1", "vec_visitor_bounded_allocation", "g1_codec_short_input", "channel_id_from_str_exact"],
         "scans": ["no_unsafe"],
         "assumptions": [
             "code generated by serde_derive and bincode's own reader are not under contract (macro-generated / dependency)",
